@@ -64,6 +64,10 @@ func (s step) String() string {
 		return fmt.Sprintf("answer-one(%s)", s.Method)
 	case "elapse":
 		return fmt.Sprintf("elapse(%dms)", s.N)
+	case "hold-log":
+		return fmt.Sprintf("delay-goroutine-at-log(%q)", s.Method)
+	case "release-log":
+		return "resume-delayed-goroutine"
 	}
 	return s.Op
 }
@@ -93,11 +97,16 @@ type world struct {
 	n   int
 	reobsOpen bool
 	nReobs    int
+	// what the node had answered per transaction at the moment a goroutine was delayed inside a log call: the
+	// delayed goroutine acts on THAT knowledge when it is resumed, whatever other goroutines have asked since
+	atPark map[common.Hash]ethh.Served
 }
 
 func newWorld(sc scenario) *world {
 	c := ethh.NewChain(100)
-	return &world{sc: sc, c: c, d: ethh.NewDriver(c, sc.WaitConf, sc.Finalized), fwd: map[string]int{}}
+	w := &world{sc: sc, c: c, d: ethh.NewDriver(c, sc.WaitConf, sc.Finalized), fwd: map[string]int{}}
+	w.d.OnPark = func() { w.atPark = c.ServedSnapshot() }
+	return w
 }
 
 var executions, stimuli, forwards, curItem int
@@ -143,7 +152,13 @@ func (w *world) apply(s step, hist []step, check bool) {
 	case "hold":
 		w.c.HoldMethod(s.Method, int(s.N))
 	case "releaseall":
+		w.d.ReleaseLog()
 		w.c.ReleaseAll()
+		w.d.Quiesce()
+	case "hold-log": // the goroutine that writes the next log entry containing Method is delayed inside that call
+		w.d.HoldLog(s.Method, int(s.N))
+	case "release-log":
+		w.d.ReleaseLog()
 		w.d.Quiesce()
 	case "release1":
 		w.c.ReleaseMethod(s.Method)
@@ -181,24 +196,43 @@ func (w *world) apply(s step, hist []step, check bool) {
 // transaction (a chain that moves after that answer is outside any watcher's knowledge), and the depth
 // must have been established from a head served BEFORE that answer.
 func (w *world) judge(tx common.Hash, seq uint64, cl uint8, ts int64, path string, hist []step) {
-	key := "C10 " + path + " path: "
 	sv, asked := w.c.ServedReceipt(tx)
+	key, what := w.judgeWith(sv, asked, seq, cl, ts, path)
+	if key != "" && w.atPark != nil {
+		// a goroutine was delayed in the middle of its reaction: a forward is also justified by the answer that
+		// goroutine had when it was stopped
+		if sv2, ok := w.atPark[tx]; ok {
+			if k2, _ := w.judgeWith(sv2, true, seq, cl, ts, path); k2 == "" {
+				key = ""
+			}
+		}
+	}
+	if key != "" {
+		viol(w.sc, hist, key, what)
+	}
+	for k, n := range w.fwd {
+		if n > 1+w.nReobs {
+			viol(w.sc, hist, "C10 the same message was forwarded more often than once by polling plus once per re-observation request", fmt.Sprintf("%s: %d forwards, %d re-observation requests", k, n, w.nReobs))
+		}
+	}
+}
+
+// judgeWith judges one forward against one receipt answer; it returns the first objection ("" = justified).
+func (w *world) judgeWith(sv ethh.Served, asked bool, seq uint64, cl uint8, ts int64, path string) (string, string) {
+	key := "C10 " + path + " path: "
 	required := uint64(0)
 	if w.sc.WaitConf && !w.sc.Finalized {
 		required = uint64(cl)
 	}
 	if !asked {
-		viol(w.sc, hist, key+"forwarded without ever looking up the transaction's receipt", "")
-		return
+		return key+"forwarded without ever looking up the transaction's receipt", ""
 	}
 	rc := sv.Receipt
 	if rc == nil {
-		viol(w.sc, hist, key+"forwarded although the node answered that it does not know the transaction (orphaned)", "")
-		return
+		return key+"forwarded although the node answered that it does not know the transaction (orphaned)", ""
 	}
 	if rc.Status != 1 {
-		viol(w.sc, hist, key+"forwarded although the receipt the node returned has a non-success status", "")
-		return
+		return key+"forwarded although the receipt the node returned has a non-success status", ""
 	}
 	found := false
 	ev0 := ethh.ABI.Events["LogMessagePublished"]
@@ -218,11 +252,10 @@ func (w *world) judge(tx common.Hash, seq uint64, cl uint8, ts int64, path strin
 		}
 	}
 	if !found {
-		viol(w.sc, hist, key+"forwarded a log that was not emitted by the core contract with the message-published topic", "")
-		return
+		return key+"forwarded a log that was not emitted by the core contract with the message-published topic", ""
 	}
 	if sv.HeadBefore < rc.BlockNumber.Uint64()+required {
-		viol(w.sc, hist, key+"forwarded although no head observed before the receipt lookup had reached block + required confirmations", fmt.Sprintf("head served before the lookup %d, block %d, required %d", sv.HeadBefore, rc.BlockNumber.Uint64(), required))
+		return key+"forwarded although no head observed before the receipt lookup had reached block + required confirmations", fmt.Sprintf("head served before the lookup %d, block %d, required %d", sv.HeadBefore, rc.BlockNumber.Uint64(), required)
 	}
 	// the receipt points to the block the message was observed in (block times are unique per fork)
 	bt := int64(1_700_000_000 + rc.BlockNumber.Uint64()*12)
@@ -232,13 +265,9 @@ func (w *world) judge(tx common.Hash, seq uint64, cl uint8, ts int64, path strin
 		}
 	}
 	if ts != bt {
-		viol(w.sc, hist, key+"forwarded a message observed in another block than the one the returned receipt points to (re-mined)", fmt.Sprintf("message block time %d, receipt block time %d", ts, bt))
+		return key+"forwarded a message observed in another block than the one the returned receipt points to (re-mined)", fmt.Sprintf("message block time %d, receipt block time %d", ts, bt)
 	}
-	for k, n := range w.fwd {
-		if n > 1+w.nReobs {
-			viol(w.sc, hist, "C10 the same message was forwarded more often than once by polling plus once per re-observation request", fmt.Sprintf("%s: %d forwards, %d re-observation requests", k, n, w.nReobs))
-		}
-	}
+	return "", ""
 }
 
 func viol(sc scenario, steps []step, key, what string) {
@@ -250,6 +279,43 @@ func viol(sc scenario, steps []step, key, what string) {
 	cp.Steps = steps
 	r.Violation(key, what+"  ["+sc.Name+"]  history: "+strings.Join(pretty, " "), cp)
 }
+
+// logCapture, when set, receives the log messages written during each step of the next run.
+var logCapture *[][]string
+
+// logVariants: a log call is a point at which a goroutine can be delayed. For every step of the base and every
+// distinct message logged during it, the goroutine writing that entry is parked inside the log call and resumed
+// (a) after the NEXT stimulus, (b) after all remaining stimuli - the reactions of the other goroutines to those
+// stimuli happen while this one stands still in the middle of its own reaction.
+func logVariants(sc scenario) {
+	var logs [][]string
+	logCapture = &logs
+	run(sc, sc.Steps, false)
+	logCapture = nil
+	for i := range sc.Steps {
+		if i >= len(logs) {
+			break
+		}
+		seen := map[string]bool{}
+		for _, m := range logs[i] {
+			if seen[m] || strings.Contains(m, "supervisor") {
+				continue
+			}
+			seen[m] = true
+			pre := append(append([]step{}, sc.Steps[:i]...), step{Op: "hold-log", Method: m}, sc.Steps[i])
+			rest := sc.Steps[i+1:]
+			if len(rest) > 0 {
+				a := append(append(append([]step{}, pre...), rest[0], step{Op: "release-log"}), rest[1:]...)
+				run(sc, a, true)
+			}
+			b := append(append(append([]step{}, pre...), rest...), step{Op: "release-log"})
+			run(sc, b, true)
+			logRuns += 2
+		}
+	}
+}
+
+var logRuns int
 
 // run executes steps, then the fair closing schedule, then judges the horizon.
 func run(sc scenario, steps []step, check bool) string {
@@ -279,7 +345,11 @@ func run(sc scenario, steps []step, check bool) string {
 			// anything: the message is abandoned only after the whole abandonment window.
 			faulted = true
 		}
+		nlog := len(w.d.LogSince(0))
 		w.apply(s, steps[:i+1], check)
+		if logCapture != nil {
+			*logCapture = append(*logCapture, w.d.LogSince(nlog))
+		}
 		if !w.d.Running() {
 			died = true
 		}
@@ -401,6 +471,13 @@ func bases() []scenario {
 		// two transactions
 		out = append(out, scenario{Name: fmt.Sprintf("two-txs/wait=%v", wc), WaitConf: wc, Level: 3,
 			Steps: []step{{Op: "mine", Tx: 1, Block: 101, Logs: []ethh.LogSpec{core(5, 1)}}, {Op: "mine", Tx: 2, Block: 102, Logs: []ethh.LogSpec{core(6, 3)}}, {Op: "poll"}, {Op: "head+", N: 1}, {Op: "poll"}, {Op: "head+", N: 3}, {Op: "poll"}}})
+	}
+	// a second message arrives after the first one is confirmed and the pending set has become empty (the poller
+	// is switched off when nothing is pending and on again by the next message)
+	for _, wc := range []bool{true, false} {
+		out = append(out, scenario{Name: fmt.Sprintf("second-after-first-confirmed/wait=%v", wc), WaitConf: wc, Level: 5,
+			Steps: []step{{Op: "mine", Tx: 1, Block: 101, Logs: []ethh.LogSpec{core(5, 1)}}, {Op: "poll"}, {Op: "head+", N: 2}, {Op: "poll"},
+				{Op: "mine", Tx: 2, Block: 104, Logs: []ethh.LogSpec{core(6, 5)}}, {Op: "head+", N: 6}, {Op: "poll"}}})
 	}
 	// several messages with different consistency levels in ONE transaction (both orders), re-observed
 	// while the head is between the two depths
@@ -695,7 +772,11 @@ func main() {
 				run(sc, h, true)
 			}
 		}
+		if !strings.HasPrefix(sc.Name, "slow-node/") && (r.Thorough() || bi%2 == 0 || multi || strings.HasPrefix(sc.Name, "second-after-first")) {
+			logVariants(sc)
+		}
 	}
+	r.Add("goroutine_delay_runs", logRuns)
 	r.Add("states", executions)
 	r.Add("transitions", stimuli)
 	r.Add("traces_validated_against_impl", executions)
